@@ -1,6 +1,7 @@
 """C16 — selective generation keeps exactly the listed RPCs and a closed set of types."""
 import itertools
 import random
+import re
 
 from google.api import resource_pb2
 from google.protobuf.descriptor import FieldDescriptor as FD
@@ -131,6 +132,9 @@ def closures(model, req, kept, pkg):
     orphan = any(pkg + "." + ".".join(n[len(pkg) + 1:].split(".")[:i]) not in field_only
                  for n in field_only for i in range(1, len(n[len(pkg) + 1:].split("."))))
     closures.orphan_nested = orphan
+    # simple names of enclosing messages that a kept nested type needs but that no field reaches
+    closures.orphan_parents = sorted({n[len(pkg) + 1:].split(".")[0] for n in field_only
+                                      if "." in n[len(pkg) + 1:] and pkg + "." + n[len(pkg) + 1:].split(".")[0] not in field_only})
     may_seeds = set(need)
     for n in need:
         parts = n[len(pkg) + 1:].split(".")
@@ -209,7 +213,13 @@ def run_case(case):
               "services": {sn: [rdm.py_method(m.name) for _, m in ms] for sn, ms in services.items()}}
     ev, rc, err = pipeline.run_runner("checks.c16", script, lib, timeout=200)
     if ev is None or "runner_crash" in ev or "library_import_error" in ev:
-        return pipeline.runner_failed_result(ev, rc, err, api, {**mech, "nested_type_without_enclosing_message": orphan})
+        names_parent = False
+        if ev and "library_import_error" in ev and orphan:
+            e = ev["library_import_error"]
+            mm = re.search(r"has no attribute '(\w+)'", e.get("msg") or "")
+            names_parent = e.get("type") == "AttributeError" and bool(mm) and mm.group(1) in getattr(closures, "orphan_parents", [])
+        return pipeline.runner_failed_result(ev, rc, err, api, {**mech, "nested_type_without_enclosing_message": orphan,
+                                                                "import_error_names_pruned_enclosing_message": names_parent})
     viol = []
 
     def bump(k, n=1):
